@@ -284,6 +284,32 @@ class SimLoop(base_events.BaseEventLoop):
         t._scheduled = True
         return t
 
+    def run_in_executor(self, executor, func, *args):
+        """worker threads are simulated: the function runs atomically, in the caller's process, at a later simulated time drawn
+        from the run's seed (0..3 s, biased to short), and its future resolves then.  No real thread ever runs."""
+        sim = self.sim
+        sim.nexec += 1
+        u = unit(sim.net_seed, "executor", sim.nexec)
+        delay = 0.001 + (u * u) * 3.0
+        fut = self.create_future()
+        sim.count("executor_job")
+
+        def job():
+            if fut.cancelled():
+                return
+            try:
+                r = func(*args)
+            except SimCrash:
+                raise
+            except BaseException as e:  # noqa: the future carries it, as a real executor would
+                if not fut.done():
+                    fut.set_exception(e)
+                return
+            if not fut.done():
+                fut.set_result(r)
+        self.call_at(self._vt + delay, job)
+        return fut
+
     async def create_server(self, protocol_factory, host=None, port=None, **kw):
         sim = self.sim
         srv = SimServer(sim, (host, port), protocol_factory, PROC.get(), contextvars.copy_context())
@@ -345,6 +371,7 @@ class Sim:
         self.stalls = {}  # (cid, side) -> [(from_seq, seconds)]
         self.tasks = []
         self.stall_once = None
+        self.nexec = 0
         self.role_k = {}  # role -> number of disk events so far
 
     # -- bookkeeping
@@ -431,7 +458,7 @@ class Sim:
         for piece in pieces:
             lat = self.latency(src.cid, src.side, src.seq)
             so = self.stall_once
-            if so is not None and kind == "data" and src.side == so[0]:
+            if so is not None and kind == "data" and src.side == so[0] and src.seq >= (so[2] if len(so) > 2 else 0):
                 lat += so[1]  # a slow node: this direction delivers nothing for so[1] seconds
                 self.stall_once = None
                 self.count("stall")
